@@ -395,9 +395,13 @@ func callersHold(p *Program, f *ssa.Function, mu string) string {
 func (c *Check) scratchFields() {
 	p := c.P
 	m := newModAnalyzer(p)
-	serialize := c.anchorFn("C20-R1", "profile", "serialize")
-	if serialize == nil {
+	sers := c.serializers("C20-R1")
+	if len(sers) == 0 {
 		return
+	}
+	isSer := map[*ssa.Function]bool{}
+	for _, ser := range sers {
+		isSer[ser] = true
 	}
 	isScratch := func(T, F string) bool {
 		if !strings.HasPrefix(T, "profile.") || F == "" {
@@ -424,24 +428,26 @@ func (c *Check) scratchFields() {
 		c.undecided("C20-R1", "scratch:none", "", "no writer of profile scratch fields found")
 		return
 	}
-	// the locked region of serialize
+	// the locked region of the serializer(s)
 	locked := map[*ssa.Function]bool{}
-	for _, b := range serialize.Blocks {
-		for _, ins := range b.Instrs {
-			if call, ok := ins.(*ssa.Call); ok && call.Call.StaticCallee() != nil && fnInModule(call.Call.StaticCallee()) {
-				held := heldAt(serialize, call)
-				okHeld := false
-				for id := range held {
-					if strings.HasSuffix(id, ".encodeMu") {
-						okHeld = true
+	for _, serialize := range sers {
+		for _, b := range serialize.Blocks {
+			for _, ins := range b.Instrs {
+				if call, ok := ins.(*ssa.Call); ok && call.Call.StaticCallee() != nil && fnInModule(call.Call.StaticCallee()) {
+					held := heldAt(serialize, call)
+					okHeld := false
+					for id := range held {
+						if strings.HasSuffix(id, ".encodeMu") {
+							okHeld = true
+						}
 					}
-				}
-				key := "scratch:serialize→" + call.Call.StaticCallee().Name()
-				if okHeld {
-					locked[call.Call.StaticCallee()] = true
-					c.ok("C20-R1", key, p.relFile(call.Pos()), call.Call.StaticCallee().Name()+" runs inside serialize's critical section", "p.encodeMu is held at the call")
-				} else {
-					c.bad("C20-R1", key, p.relFile(call.Pos()), "serialize calls "+call.Call.StaticCallee().Name()+" without holding p.encodeMu")
+					key := "scratch:serialize→" + call.Call.StaticCallee().Name()
+					if okHeld {
+						locked[call.Call.StaticCallee()] = true
+						c.ok("C20-R1", key, p.relFile(call.Pos()), call.Call.StaticCallee().Name()+" runs inside the serializer's critical section", "p.encodeMu is held at the call")
+					} else {
+						c.bad("C20-R1", key, p.relFile(call.Pos()), fnName(serialize)+" calls "+call.Call.StaticCallee().Name()+" without holding p.encodeMu")
+					}
 				}
 			}
 		}
@@ -497,7 +503,7 @@ func (c *Check) scratchFields() {
 				return
 			}
 			for _, cf := range cs {
-				if cf == serialize {
+				if isSer[cf] {
 					if !locked[f] {
 						bad = "called from serialize outside the critical section"
 					}
